@@ -5,8 +5,8 @@
      lm_label req rl v    v (or 1 + position of v in req when relabelling) if v is requested, else 0
      label_at rl k s      s, or k + 1 when relabelling (k = 0-based position in the request)
      req_covers st key req p f k   frame f of plane key belongs to the k-th requested segment and is > 0 at pixel p *)
-From Coq Require Import String ZArith List Bool Lia.
-From HD Require Import Base.Val C02_Model C02_Proofs C02_Proofs_Ext C02_Proofs_Ix.
+From Coq Require Import String ZArith List Bool Lia Permutation.
+From HD Require Import Base.Val C02_Model C02_Proofs C02_Proofs_Ext C02_Proofs_Ix C02_Proofs_Ptr.
 Import ListNotations.
 Open Scope Z_scope.
 
@@ -425,3 +425,65 @@ Example C02_dimension_index_nonvacuous :
   = Ok (DU 8, OComb [[1; 3]; [3; 3]]).
 Proof. exact ex_ix_reads. Qed.
 Print Assumptions C02_dimension_index_nonvacuous.
+
+(* ---- explicit dimension index pointers ------------------------------------------------------- *)
+(* get_pixels_by_dimension_index_values with dimension_index_pointers = any selection ps of the plane
+   dimensions of the object (positions in the DimensionIndexSequence, segment dimension excluded) and rows
+   of values, one value per pointer.  [permute sigma l] lists entries sigma_0, sigma_1, ... of l.
+   The ORDER in which the dimensions are named is irrelevant: permuting the pointers and every row of
+   values alike gives the same answer - same refusal or same pixels (the model is a function of the stored
+   object; that the CODE keeps no state between reads that could mix up two orders is what the `pointers`
+   histories of the correspondence run exercise). *)
+Theorem C02_dimension_pointer_order_irrelevant : forall sigma am st nd dfs ps rows req o,
+  Permutation sigma (seq 0 (length ps)) ->
+  (forall p, In p ps -> 0 <= p < nd) ->
+  (forall r, In r rows -> length r = length ps) ->
+  read_dim am st nd dfs (Some (permute sigma ps)) (map (permute sigma) rows) req o =
+  read_dim am st nd dfs (Some ps) rows req o.
+Proof. exact pointer_order_irrelevant. Qed.
+Print Assumptions C02_dimension_pointer_order_irrelevant.
+
+(* Whatever selection of dimensions is used, it only NAMES the planes: if two stored frames agree along
+   the selected dimensions exactly when they belong to the same plane, and row i carries the values of
+   plane key i (values that no stored frame carries if the plane has no frame), the read is the read by
+   plane of the plain object - so read_stacked_exact, read_combined_exact, read_accepts_iff and the
+   missing-frame policy hold for it. *)
+Theorem C02_dimension_pointers_name_planes : forall dfs ps,
+  (forall f g, In f dfs -> In g dfs ->
+     (fkey (d_frame f) = fkey (d_frame g) <-> proj ps (d_ix f) = proj ps (d_ix g))) ->
+  forall am st nd keys rows req o,
+  ps <> [] -> (forall p, In p ps -> 0 <= p < nd) ->
+  (forall r, In r rows -> length r = length ps) ->
+  Forall2 (fun k row => forall f, In f dfs -> (fkey (d_frame f) = k <-> proj ps (d_ix f) = row)) keys rows ->
+  read_dim am st nd dfs (Some ps) rows req o =
+  read EDimIdx am (with_frames st (map d_frame dfs)) keys req o.
+Proof. exact read_dim_names_planes. Qed.
+Print Assumptions C02_dimension_pointers_name_planes.
+
+(* a requested combination of values that no stored frame carries is refused (ValueError) unless the
+   caller asserts that missing frames are empty - for every selection and order of the pointers, also when
+   the same values in another order, or its values one by one, do occur in the object *)
+Theorem C02_dimension_read_absent_refused : forall st nd dfs ps rows req o row,
+  (forall p, In p ps -> 0 <= p < nd) ->
+  In row rows -> (forall f, In f dfs -> proj ps (d_ix f) <> row) ->
+  read_dim false st nd dfs (Some ps) rows req o = Err "ValueError".
+Proof. exact read_dim_absent_refused. Qed.
+Print Assumptions C02_dimension_read_absent_refused.
+
+(* dimension_index_pointers=None stands for all plane dimensions of the object in their own order *)
+Theorem C02_dimension_default_pointers : forall am st nd dfs rows req o, 0 < nd ->
+  read_dim am st nd dfs None rows req o = read_dim am st nd dfs (Some (zrange 0 nd)) rows req o.
+Proof. exact read_dim_default_pointers. Qed.
+Print Assumptions C02_dimension_default_pointers.
+
+Example C02_dimension_pointers_nonvacuous :
+  read_dim false ex_ptr_st 3 ex_ptr_frames (Some [0; 1]) [[2; 1]; [1; 1]] [2; 1] ex_ptr_opts
+  = Ok (DU 8, OStack [[[1; 0]; [0; 1]]; [[0; 0]; [1; 0]]]) /\
+  read_dim false ex_ptr_st 3 ex_ptr_frames (Some [1; 0]) [[1; 2]; [1; 1]] [2; 1] ex_ptr_opts
+  = Ok (DU 8, OStack [[[1; 0]; [0; 1]]; [[0; 0]; [1; 0]]]) /\
+  read_dim false ex_ptr_st 3 ex_ptr_frames (Some [0; 1]) [[1; 2]] [1] ex_ptr_opts = Err "ValueError" /\
+  read_dim true ex_ptr_st 3 ex_ptr_frames (Some [0; 1]) [[1; 2]] [1] ex_ptr_opts = Ok (DU 8, OStack [[[0; 0]]]) /\
+  read_dim false ex_ptr_st 3 ex_ptr_frames (Some [2; 1]) [[1; 2]] [2] ex_ptr_opts = Ok (DU 8, OStack [[[1; 1]]]) /\
+  read_dim false ex_ptr_st 3 ex_ptr_frames (Some [0]) [[2]] [2] ex_ptr_opts = Err "RuntimeError".
+Proof. exact ex_ptr_reads. Qed.
+Print Assumptions C02_dimension_pointers_nonvacuous.
